@@ -103,6 +103,12 @@ def run(replay=None):
         'stack satisfies concepts::field_backend) and compatible-stack conversions in copying and moving form (also across stored precision); g++ -std=c++20 must accept it whenever the model says kind_of = Some and the view fits the stated 256-byte bound (measured with sizeof). '
         'Ill-kinded side: a catalogue of compositions violating each STATED kind (static_asserts and concept constraints of the layers and of field_view) must be rejected, with a well-kinded control through the same translation-unit template. '
         'A case = one (stack or conversion, API) instantiation; non-trivial = at least one transformer layer; distinct by stack name.')
+    with core.Lock('coq'):
+        rep, tlog = core.translate()
+    for u in rep['untranslatable']:
+        if u['group'] == 'Asserts':
+            chk.obligation_broken('reading of ' + u['name'], u['why'])
+    chk.cov['kind_asserts_in_source'] = len(rep.get('asserts', {}).get('asserts', [])) if isinstance(rep.get('asserts'), dict) else None
     chk.prove('Properties_C13.v')
     r = chk.rng
     names = enumerate_stacks(r, thorough)
